@@ -1,9 +1,70 @@
 import Driver.Util
-open Lean
+import NixModel.Pure.Flush
+open Lean Nix.Flush
 
 namespace Driver.C17
 
-/-- stub: replaced when the model of C17 is built -/
-def main : IO Unit := pureLoop fun _ => bad "C17: model driver not built yet"
+/-- driver state: the world and every key ever written (stores are functions; views are printed over
+these keys, in first-write order) -/
+structure St where
+  w : World
+  keys : List Key
+
+def St.init : St := ⟨World.init, []⟩
+
+def track (st : St) (k : Key) : List Key := if st.keys.contains k then st.keys else st.keys ++ [k]
+
+def storeJson (keys : List Key) (s : Store) : Json :=
+  Json.arr (keys.filterMap (fun k =>
+    match s k with
+    | some v => some (Json.arr #[Json.str k, Json.str v])
+    | none => none)).toArray
+
+def outcome (r : World × Option Nix.Err) : Json :=
+  match r.2 with
+  | none => ok Json.null
+  | some e => err e
+
+def mode? : String → Option Mode
+  | "r" => some .readOnly
+  | "a" => some .readWrite
+  | "w" => some .overwrite
+  | _ => none
+
+def ev (st : St) (e : Ev) : St × Json :=
+  let r := step st.w e
+  ({ st with w := r.1 }, outcome r)
+
+def handle (st : St) (j : Json) : St × Json :=
+  match jArr j |>.toList with
+  | [Json.str "reset"] => (St.init, ok Json.null)
+  | [Json.str "open", Json.str m] =>
+    match mode? m with
+    | some md => ev st (.open md)
+    | none => (st, err .valueError)          -- map_file_mode: "Invalid file mode specified."
+  | [Json.str "put", Json.str k, Json.str v] => ev { st with keys := track st k } (.write (.put k v))
+  | [Json.str "del", Json.str k] => ev st (.write (.del k))
+  | [Json.str "flush"] => ev st .flush
+  | [Json.str "close"] => ev st .close
+  | [Json.str "exit"] => ev st .exit
+  | [Json.str "wb", Json.arr ks] => ev st (.writeback (ks.toList.map jStr))
+  | [Json.str "kill"] => ev st .kill
+  | [Json.str "is_open"] => (st, ok (Json.bool (isOpen st.w)))
+  | [Json.str "view"] =>
+    match view st.w with
+    | some s => (st, ok (storeJson st.keys s))
+    | none => (st, err .runtimeError)
+  | [Json.str "disk"] =>
+    match st.w.disk with
+    | some s => (st, ok (storeJson st.keys s))
+    | none => (st, ok Json.null)
+  | [Json.str "shape"] =>
+    let pj (ps : List Prim) : Json := Json.arr (ps.map (fun p => Json.str (match p with
+      | .gcCollect => "gcCollect" | .h5flush => "h5flush" | .h5close => "h5close"))).toArray
+    (st, ok (Json.mkObj [("flush", pj Gen.fileFlushBody), ("close", pj Gen.fileCloseBody),
+                         ("exit", pj Gen.fileExitBody)]))
+  | _ => (st, bad "C17: unknown op")
+
+def main : IO Unit := loop St.init handle
 
 end Driver.C17
